@@ -88,10 +88,13 @@ func spec_userAction(r int, dollarDolar *StateSym, Dollar []StateSym)
 //@ modifies StackPointer
 
 //@ func ParserInit
-//@ props C15 C08
+//@ props C15 C08 C07
 //@ requires len(StateSymStack) == 0 || (StateSymStack[0].Yystate == 0 && StateSymStack[0].YySymIndex == 1 && StateSymStack[0].ValType == ValType{})
 //@ ensures [C15] StackPointer == 1 && len(StateSymStack) >= 1
 //@ ensures [C15] StateSymStack[0].Yystate == 0 && StateSymStack[0].YySymIndex == 1 && StateSymStack[0].ValType == ValType{}
+// global mode: a new parse gets a NEW stack array, so values handed out by an earlier parse (Parser returns a pointer into
+// the stack) and a stack saved by PushContex are never overwritten by a later parse (C07, C15)
+//@ ensures [C07,C15] freshStackAfterInit()
 //@ modifies StateSymStack, StackPointer
 
 //@ func ReduceFunc
@@ -180,6 +183,12 @@ func spec_userAction(r int, dollarDolar *StateSym, Dollar []StateSym)
 //@ before_stmt [C17] "PushStateSym(SymTy)" IsTrace ==> spec_traceRule(tlen-1) == reduceIndex && printed_int(tlen-1, 1) == SymTy.Yystate && printed_str(tlen-1, 0) == spec_symName(lookAhead)
 //@ before_stmt [C01] "PushStateSym(SymTy)" SymTy.YySymIndex == spec_lhs(reduceIndex) && SymTy.Yystate == spec_goto(StateSymStack[StackPointer-1].Yystate, spec_lhs(reduceIndex)) &&
 //@     0 < SymTy.Yystate && SymTy.Yystate < spec_nstates()
+
+// =============================================================================================
+//@ section global
+//@ def freshStackAfterInit() = fresh(backing(StateSymStack))
+//@ section goObject
+//@ def freshStackAfterInit() = true
 
 // =============================================================================================
 //@ section goCode unpacked
